@@ -148,6 +148,10 @@ var ifaceMethodRe = regexp.MustCompile(`^[A-Z][A-Za-z0-9]*\.[A-Z][A-Za-z0-9]*$`)
 var ghostIntType = types.NewNamed(types.NewTypeName(token.NoPos, nil, "mathint", nil), types.Typ[types.UnsafePointer], nil)
 var seqType = types.NewNamed(types.NewTypeName(token.NoPos, nil, "seq", nil), types.NewStruct(nil, nil), nil)
 
+// ghost lists (logical variables of list-carrying messages)
+var strsType = types.NewNamed(types.NewTypeName(token.NoPos, nil, "strs", nil), types.NewStruct(nil, nil), nil)
+var qidsType = types.NewNamed(types.NewTypeName(token.NoPos, nil, "qidlist", nil), types.NewStruct(nil, nil), nil)
+
 func isMathInt(t types.Type) bool { return t == ghostIntType }
 
 func (env *Env) sortOf(t types.Type) string {
@@ -156,6 +160,14 @@ func (env *Env) sortOf(t types.Type) string {
 	}
 	if t == seqType {
 		return "BSeq"
+	}
+	if t == strsType {
+		return "(Array (_ BitVec 64) GStr)"
+	}
+	if t == qidsType {
+		if qt := env.lookupType("p9.QID"); qt != nil {
+			return "(Array (_ BitVec 64) " + env.e.c.Sort(qt) + ")"
+		}
 	}
 	return env.e.c.Sort(t)
 }
@@ -194,6 +206,10 @@ func (env *Env) lookupType(name string) types.Type {
 		return ghostIntType
 	case "seq":
 		return seqType
+	case "strs":
+		return strsType
+	case "qidlist":
+		return qidsType
 	}
 	if strings.HasPrefix(name, "*") {
 		if t := env.lookupType(name[1:]); t != nil {
@@ -373,6 +389,15 @@ func (env *Env) eval(x ast.Expr) TV {
 		b := env.eval(n.X)
 		if b.Ty == nil {
 			return env.fail("index of untyped")
+		}
+		if b.Ty == strsType || b.Ty == qidsType {
+			i := env.coerce(env.eval(n.Index), types.Typ[types.Int])
+			i64 := env.e.convert(i.T, i.Ty, types.Typ[types.Int])
+			var et types.Type = types.Typ[types.String]
+			if b.Ty == qidsType {
+				et = env.lookupType("p9.QID")
+			}
+			return TV{T: sel(b.T, i64), Ty: et}
 		}
 		switch u := b.Ty.Underlying().(type) {
 		case *types.Slice:
@@ -899,6 +924,64 @@ func (env *Env) call(n *ast.CallExpr) TV {
 		v := env.eval(n.Args[0])
 		c.DeclComp("$closed", "(Array Int Bool)")
 		return TV{T: sel(c.Get(env.st, "$closed"), v.T), Ty: boolT}
+	case "snocstrs", "snocqids": // s followed by the encodings of list[0..i)
+		sq := env.eval(n.Args[0])
+		l := env.eval(n.Args[1])
+		i := env.coerce(env.eval(n.Args[2]), types.Typ[types.Int])
+		i64 := env.e.convert(i.T, i.Ty, types.Typ[types.Int])
+		sl, ok := l.Ty.Underlying().(*types.Slice)
+		if !ok {
+			return env.fail("%s: second argument must be a slice", fname)
+		}
+		es := c.Sort(sl.Elem())
+		fn := "bq." + fname
+		c.Decl(fn, fmt.Sprintf("(declare-fun %s (BSeq (Array (_ BitVec 64) %s) (_ BitVec 64) (_ BitVec 64)) BSeq)", fn, es))
+		elems := sel(c.Get(env.st, env.e.elemComp(sl.Elem())), "(s.arr "+l.T+")")
+		off := "(s.off " + l.T + ")"
+		app := func(idx string) string { return fmt.Sprintf("(%s %s %s %s %s)", fn, sq.T, elems, off, idx) }
+		t := app(i64)
+		// one-step unfolding at this index (an instance of the defining axiom)
+		prev := "(bvsub " + i64 + " #x0000000000000001)"
+		el := sel(elems, "(bvadd "+off+" "+prev+")")
+		var step TV
+		if fname == "snocstrs" {
+			l16 := "((_ extract 15 0) (gs.len " + el + "))"
+			step = TV{T: fmt.Sprintf("(bq.snocraw (bq.snoc (bq.snoc %s ((_ extract 7 0) %s)) ((_ extract 15 8) %s)) %s)", app(prev), l16, l16, el), Ty: seqType}
+		} else {
+			d := env.e.p.cs.Defines["enc_QID"]
+			if d == nil {
+				return env.fail("snocqids needs record QID")
+			}
+			step = env.applyDefineTV(d, []TV{{T: app(prev), Ty: seqType}, {T: el, Ty: sl.Elem()}})
+		}
+		c.Assert(and(implies("(bvsgt "+i64+" #x0000000000000000)", eq(t, step.T)), implies(eq(i64, "#x0000000000000000"), eq(t, sq.T))))
+		return TV{T: t, Ty: seqType}
+	case "consstrs", "consqids": // encodings of list[i..n) followed by rest
+		l := env.eval(n.Args[0])
+		i := env.coerce(env.eval(n.Args[1]), types.Typ[types.Int])
+		i64 := env.e.convert(i.T, i.Ty, types.Typ[types.Int])
+		nn := env.coerce(env.eval(n.Args[2]), types.Typ[types.Int])
+		n64 := env.e.convert(nn.T, nn.Ty, types.Typ[types.Int])
+		rest := env.eval(n.Args[3])
+		fn := "bq." + fname
+		c.Decl(fn, fmt.Sprintf("(declare-fun %s (%s (_ BitVec 64) (_ BitVec 64) BSeq) BSeq)", fn, env.sortOf(l.Ty)))
+		app := func(idx string) string { return fmt.Sprintf("(%s %s %s %s %s)", fn, l.T, idx, n64, rest.T) }
+		t := app(i64)
+		next := app("(bvadd " + i64 + " #x0000000000000001)")
+		el := sel(l.T, i64)
+		var step TV
+		if fname == "consstrs" {
+			l16 := "((_ extract 15 0) (gs.len " + el + "))"
+			step = TV{T: fmt.Sprintf("(bq.cons ((_ extract 7 0) %s) (bq.cons ((_ extract 15 8) %s) (bq.consraw %s %s)))", l16, l16, el, next), Ty: seqType}
+		} else {
+			d := env.e.p.cs.Defines["dec_QID"]
+			if d == nil {
+				return env.fail("consqids needs record QID")
+			}
+			step = env.applyDefineTV(d, []TV{{T: el, Ty: env.lookupType("p9.QID")}, {T: next, Ty: seqType}})
+		}
+		c.Assert(and(implies("(bvslt "+i64+" "+n64+")", eq(t, step.T)), implies("(bvsge "+i64+" "+n64+")", eq(t, rest.T))))
+		return TV{T: t, Ty: seqType}
 	case "sameWrExcept", "sameRdExcept": // every other buffer's ghost sequence is unchanged
 		comp := "$wr"
 		if fname == "sameRdExcept" {
@@ -1132,13 +1215,8 @@ func pow2(w int) string {
 }
 
 func (env *Env) applyDefine(d *Define, args []ast.Expr) TV {
-	c := env.e.c
 	if len(args) != len(d.Params) {
 		return env.fail("%s: wrong number of arguments", d.Name)
-	}
-	rt := env.lookupType(d.RType)
-	if rt == nil {
-		return env.fail("%s: unknown result type %s", d.Name, d.RType)
 	}
 	var avs []TV
 	for i, a := range args {
@@ -1146,11 +1224,20 @@ func (env *Env) applyDefine(d *Define, args []ast.Expr) TV {
 		if pt == nil {
 			return env.fail("%s: unknown parameter type %s", d.Name, d.PTypes[i])
 		}
-		v := env.eval(a)
+		v := env.noSkolem().eval(a)
 		if v.Ty == nil {
 			v = env.coerce(v, pt)
 		}
 		avs = append(avs, TV{T: v.T, Ty: pt})
+	}
+	return env.applyDefineTV(d, avs)
+}
+
+func (env *Env) applyDefineTV(d *Define, avs []TV) TV {
+	c := env.e.c
+	rt := env.lookupType(d.RType)
+	if rt == nil {
+		return env.fail("%s: unknown result type %s", d.Name, d.RType)
 	}
 	if d.Uninterpreted {
 		var ps, as []string
